@@ -306,9 +306,8 @@ func (esp *EntityStreamParser) parseEntity(decoder *json.Decoder) (*Entity, erro
 				e.Properties = make(map[string]interface{})
 				e.Properties["token"] = val
 			default:
-				// log named property
-				// read value
-				_, err := decoder.Token()
+				// unknown key: skip its whole value (which may be an object or an array)
+				err := skipValue(decoder)
 				if err != nil {
 					return nil, errors.New("unable to parse value of unknown key: " + v + err.Error())
 				}
@@ -319,12 +318,39 @@ func (esp *EntityStreamParser) parseEntity(decoder *json.Decoder) (*Entity, erro
 	}
 }
 
+// skipValue consumes one complete json value from the decoder
+func skipValue(decoder *json.Decoder) error {
+	t, err := decoder.Token()
+	if err != nil {
+		return err
+	}
+	if delim, ok := t.(json.Delim); ok && (delim == '{' || delim == '[') {
+		for depth := 1; depth > 0; {
+			t, err = decoder.Token()
+			if err != nil {
+				return err
+			}
+			if delim, ok := t.(json.Delim); ok {
+				if delim == '{' || delim == '[' {
+					depth++
+				} else {
+					depth--
+				}
+			}
+		}
+	}
+	return nil
+}
+
 func (esp *EntityStreamParser) parseReferences(decoder *json.Decoder) (map[string]interface{}, error) {
 	refs := make(map[string]interface{})
 
-	_, err := decoder.Token()
+	t, err := decoder.Token()
 	if err != nil {
 		return nil, errors.New("unable to read token of at start of references " + err.Error())
+	}
+	if delim, ok := t.(json.Delim); !ok || delim != '{' {
+		return nil, errors.New("references must be an object")
 	}
 
 	for {
@@ -362,9 +388,12 @@ func (esp *EntityStreamParser) parseReferences(decoder *json.Decoder) (map[strin
 func (esp *EntityStreamParser) parseProperties(decoder *json.Decoder) (map[string]interface{}, error) {
 	props := make(map[string]interface{})
 
-	_, err := decoder.Token()
+	t, err := decoder.Token()
 	if err != nil {
 		return nil, errors.New("unable to read token of at start of properties " + err.Error())
+	}
+	if delim, ok := t.(json.Delim); !ok || delim != '{' {
+		return nil, errors.New("properties must be an object")
 	}
 
 	for {
@@ -413,6 +442,7 @@ func (esp *EntityStreamParser) parseRefValue(decoder *json.Decoder) (interface{}
 			if v == '[' {
 				return esp.parseRefArray(decoder)
 			}
+			return nil, errors.New("a reference value must be a string or an array of strings")
 		case string:
 			nsRef, err := esp.store.GetNamespacedIdentifier(v, esp.localNamespaces)
 			if err != nil {
